@@ -118,13 +118,13 @@ func sanitizeFile(s string) string {
 func (x *Exec) obligationScript(o *Obligation, getValues []*Term) string {
 	c := x.c
 	var asserts []*Term
-	asserts = append(asserts, x.assumps[:o.NAssum]...)
+	asserts = append(asserts, o.Assums[:o.NAssum]...)
 	goal := c.skolemize(o.Cond)
 	asserts = append(asserts, o.Guard, c.Not(goal))
 	if os.Getenv("GOVC_INSTANTIATE") != "" && (goal != o.Cond || hasQuantifier(asserts)) {
 		pool := c.poolOf([]*Term{goal, o.Guard}, 20)
 		var inst []*Term
-		for _, a := range x.assumps[:o.NAssum] {
+		for _, a := range o.Assums[:o.NAssum] {
 			inst = append(inst, c.instances(a, pool)...)
 		}
 		asserts = append(asserts, inst...)
@@ -134,6 +134,9 @@ func (x *Exec) obligationScript(o *Obligation, getValues []*Term) string {
 
 func hasQuantifier(ts []*Term) bool {
 	for _, t := range ts {
+		if !t.hasQ {
+			continue
+		}
 		if t.op == "forall" || (t.op == "=>" && t.args[1].op == "forall") || t.op == "and" {
 			var found bool
 			var walk func(t *Term)
@@ -164,6 +167,9 @@ func hasQuantifier(ts []*Term) bool {
 // skolemize replaces universally quantified subformulas in positive position
 // (under and / or / the consequent of =>) by instances at fresh constants.
 func (c *Ctx) skolemize(t *Term) *Term {
+	if !t.hasQ {
+		return t
+	}
 	switch t.op {
 	case "forall":
 		m := map[*Term]*Term{}
@@ -334,7 +340,7 @@ func (x *Exec) dischargeAll(obls []*Obligation, dir string, timeoutS int, par in
 			disj = append(disj, x.c.And(obls[k].Guard, x.c.Not(obls[k].Cond)))
 		}
 		var asserts []*Term
-		asserts = append(asserts, x.assumps[:obls[b.idx[0]].NAssum]...)
+		asserts = append(asserts, obls[b.idx[0]].Assums[:obls[b.idx[0]].NAssum]...)
 		asserts = append(asserts, x.c.Or(disj...))
 		batchScripts[bi] = x.c.Script(asserts, ScriptOpts{})
 	}
